@@ -222,7 +222,7 @@ GHashTable* g_hash_table_new (GHashFunc hash_func, GEqualFunc key_equal_func);
 GHashTable* g_hash_table_new_full (GHashFunc hash_func, GEqualFunc key_equal_func, GDestroyNotify key_destroy_func, GDestroyNotify value_destroy_func);
 void g_hash_table_destroy (GHashTable *hash_table); gboolean g_hash_table_insert (GHashTable *hash_table, gpointer key, gpointer value);
 gboolean g_hash_table_replace (GHashTable *hash_table, gpointer key, gpointer value); gboolean g_hash_table_add (GHashTable *hash_table, gpointer key);
-gboolean g_hash_table_remove (GHashTable *hash_table, gconstpointer key); void g_hash_table_remove_all (GHashTable *hash_table);
+gboolean g_hash_table_remove (GHashTable *hash_table, gconstpointer key); void g_hash_table_remove_all (GHashTable *hash_table); gboolean g_hash_table_steal (GHashTable *hash_table, gconstpointer key);
 gpointer g_hash_table_lookup (GHashTable *hash_table, gconstpointer key); gboolean g_hash_table_contains (GHashTable *hash_table, gconstpointer key);
 gboolean g_hash_table_lookup_extended (GHashTable *hash_table, gconstpointer lookup_key, gpointer *orig_key, gpointer *value);
 void g_hash_table_foreach (GHashTable *hash_table, GHFunc func, gpointer user_data); guint g_hash_table_size (GHashTable *hash_table);
